@@ -4,6 +4,7 @@ mod e2e;
 mod gen;
 mod sansio;
 mod sio;
+mod tlscfg;
 mod trace;
 
 #[global_allocator]
@@ -54,6 +55,20 @@ fn main() {
         "adm" => {
             let mut t = trace::Tracer::create(&out);
             sansio::suite_adm(&mut t, tier, seed);
+            println!("events={}", t.finish());
+        }
+        "pin" | "ident" | "cfg" => {
+            let mut t = trace::Tracer::create(&out);
+            let thorough = tier == sansio::Tier::Thorough;
+            match args[1].as_str() {
+                "pin" => tlscfg::suite_pin(&mut t, thorough, seed),
+                "ident" => {
+                    let scratch = arg(&args, "--scratch").unwrap_or_else(|| format!("{out}.scratch"));
+                    tlscfg::suite_ident(&mut t, thorough, seed, &scratch);
+                    let _ = std::fs::remove_dir_all(&scratch);
+                }
+                _ => tlscfg::suite_cfg(&mut t, thorough, seed),
+            }
             println!("events={}", t.finish());
         }
         "e2e" => {
